@@ -79,7 +79,52 @@ def cases(tier):
         size = 40
         for i in range(0, len(progs), size):
             out.append({"name": "%s/%d" % (base, i), "base": base, "progs": progs[i:i + size]})
+    out += opsweep_cases(tier)
     return out
+
+
+def opsweep_cases(tier):
+    """every C02 operation body with >= 2 tensor operands; AFTER the forward call one operand is updated in place, then backward():
+    the other operands must receive the gradients of the forward pass as it was computed (operations hold on to pre-mutation values)"""
+    from . import C02
+
+    import re
+
+    out = []
+    cs = [c for c in C02.cases(tier) if c.get("kind") != "crosshair" and c.get("leaves")
+          and not any(vp.is_inplace(l) for l in c["body"].split("\n")) and not c["name"].endswith("/F")
+          and (not c.get("heavy") or c["name"] in (("n/gru/T1",) if tier == "quick" else ("n/gru/T1", "n/gru/T2")))]
+    specs = []
+    for c in cs:
+        for ent in c["leaves"]:
+            nm = ent[0]
+            if len(c["leaves"]) >= 2:
+                # the operand itself is updated: it leaves the graph of `out`, the OTHER operands are checked
+                specs.append(dict(c, name="%s|then %s *= 2.0" % (c["name"], nm), body=c["body"] + "\n%s *= 2.0" % nm, skip_leaves=[nm]))
+            if not c.get("heavy") and not re.search(r"\b%s\s*=" % nm, c["body"]):
+                # the operation consumes an intermediate tensor `+leaf`, which is updated afterwards: every leaf is checked
+                body = "%s_ = +%s\n" % (nm, nm) + re.sub(r"\b%s\b" % nm, nm + "_", c["body"]) + "\n%s_ *= 2.0" % nm
+                specs.append(dict(c, name="%s|via +%s, then updated" % (c["name"], nm), body=body))
+    for i in range(0, len(specs), 12):
+        out.append({"name": "opsweep/%d" % i, "opsweep": specs[i:i + 12]})
+    return out
+
+
+def run_opsweep(spec, tier, mg):
+    res = common.new_result()
+    for gs in spec["opsweep"]:
+        heavy = gs.get("heavy")  # recurrent layer: the first few paths only (every path goes through the same backward code)
+        r = gradcase.run(gs, tier, PROP, mg, max_paths=3 if heavy else 200, max_seconds=40 if heavy else 60, timeout_ms=8000, skip_ties=True)
+        for key in ("paths", "boundary_paths", "exc_paths", "unsat", "sat", "unknown"):
+            res[key] += r[key]
+        res["violations"] += r["violations"]
+        if r["status"] == common.VIOLATION:
+            res["status"] = common.VIOLATION
+        elif r["status"] == common.INCONCLUSIVE and res["status"] == common.OK:
+            res["status"] = common.INCONCLUSIVE
+            res["notes"] += r["notes"][-2:]
+    res["sample"] = {"case": spec["opsweep"][0]["name"], "body": spec["opsweep"][0]["body"]}
+    return res
 
 
 def descendants(lines, root):
@@ -424,6 +469,8 @@ print('REPRODUCED' if bad else 'NOT-REPRODUCED'); sys.exit(1 if bad else 0)
 
 def run_case(spec, tier):
     mg = common._WORKER["mg"]
+    if "opsweep" in spec:
+        return run_opsweep(spec, tier, mg)
     res = common.new_result()
     res["programs"] = 0
     for k, lines in enumerate(spec["progs"]):
